@@ -101,10 +101,12 @@ class CollectionPartSync(CollectionPartCache, CollectionPartHistory,
             except PermissionError:
                 pass
             else:
-                # clean up old sync tokens and item cache
+                # clean up old sync tokens
+                # The history of deleted items must not be expired here: it
+                # is part of the state the returned token stands for. It is
+                # expired on the next upload, delete or move.
                 self._clean_cache(token_folder, os.listdir(token_folder),
                                   max_age=self._max_sync_token_age)
-                self._clean_history()
         else:
             # Try to update the modification time
             with contextlib.suppress(FileNotFoundError):
